@@ -159,6 +159,9 @@ func detFamily(fam string) func(n int) {
 				continue
 			}
 			f := strings.Split(line, "\t")
+			for i := range f {
+				f[i] = unesc(f[i])
+			}
 			do("det", f[:len(f)-1]...)
 		}
 	}
